@@ -197,12 +197,12 @@ def trailing_operand_value(line, cfg):
     return None
 
 
-def phrases_through_variables(rep, per_form):
+def phrases_through_variables(rep, per_form, modules=None, min_forms=8, tag="c03.via"):
     import forms
     from props import c05, c06, c09, c10, c11, c12, c14
     rng = random.Random(rep.seed * 977 + 3)
     by_form = {}
-    for m, home in ((c05, "C05"), (c06, "C06"), (c09, "C09"), (c10, "C10"), (c11, "C11"), (c12, "C12"), (c14, "C14")):
+    for m, home in (modules or ((c05, "C05"), (c06, "C06"), (c09, "C09"), (c10, "C10"), (c11, "C11"), (c12, "C12"), (c14, "C14"))):
         for it in forms.collect(m, rep, home=home):
             if it.get("lang", "en") != "en" or it.get("pre") or it.get("today") is not None or it["expected"]["k"] in ("unspec", "fails"):
                 continue
@@ -214,7 +214,7 @@ def phrases_through_variables(rep, per_form):
             tv = trailing_operand_value(it["line"], it["cfg"])
             if tv is not None:
                 by_form.setdefault(it["line"]["form"] + ".last", []).append((it, tv, True))
-    if len(by_form) < 8:
+    if len(by_form) < min_forms:
         raise ToolError("vacuous: phrase forms with a leading operand: %s" % sorted(by_form))
     picked = []
     for f in sorted(by_form):
@@ -242,7 +242,7 @@ def phrases_through_variables(rep, per_form):
         if steps:
             cases.append({"id": "via%d" % n, "cfg": it["cfg"], "steps": steps[:4]})
             meta.append((it, ov, last))
-    obs = run_harness_stable_day(cases, "c03.via", jobs=8)
+    obs = run_harness_stable_day(cases, tag, jobs=8)
     used = 0
     forms_used = set()
     for case, (it, ov, last), o in zip(cases, meta, obs):
@@ -264,7 +264,7 @@ def phrases_through_variables(rep, per_form):
                                "class": "%s|via|%s|%s" % (kind, it["line"]["form"], "last" if last else "first")})
             break
     rep.extra["phrases_through_variables"] = {"phrase_lines": len(cases), "operand_found_and_checked": used, "forms": sorted(forms_used)}
-    if used < len(cases) // 2 or len(forms_used) < 8:
+    if used < len(cases) // 2 or len(forms_used) < min_forms:
         raise ToolError("vacuous: the operand of only %d of %d phrase lines could be bound to a name (forms %s)" % (used, len(cases), sorted(forms_used)))
 
 
